@@ -4,14 +4,17 @@
 //! the admin snapshots used by the "no effect" oracle.
 
 use anda_db_server::{AppState, Scope, ServerOptions, build_router};
+use anda_object_store::{FaultHandle, FaultKind, FaultOp, FaultRule, FaultStore};
 use axum::Router;
 use axum::body::Body;
 use http_body_util::BodyExt;
 use serde_json::{Value, json};
+use object_store::ObjectStore;
 use std::collections::{BTreeMap, BTreeSet};
+use std::sync::Arc;
 use std::time::Duration;
 use tower::ServiceExt;
-pub use vcore::recstore::{Mutation, RecStore};
+pub use vcore::recstore::{Fault, Mutation, RecStore};
 
 // ---------------------------------------------------------------------------------------------
 // dispatch table extraction (text of api/mod.rs of the tree the harness was built against)
@@ -501,6 +504,56 @@ pub enum Life {
     Crashed,
     /// as Crashed, with unflushed document writes at the moment of the copy
     CrashedPending,
+
+    // --- states in which B is (meant to be) known to the server but not served; see `DORMANT_LIVES`
+    /// graceful shutdown, then a restart during which every read of B's objects fails (transient
+    /// storage fault): B stays registered but has no live entry; the fault is cleared afterwards
+    UnopenedAfterFailedReopen,
+    /// as `UnopenedAfterFailedReopen`, then the admin's `db.open` brings B back (collections cold)
+    FailedReopenThenOpened,
+    /// B closed with `db.close` and not reopened: no live entry, not registered, binding kept
+    ClosedUnregistered,
+    /// `db.close` of B whose registry write into the primary database failed (answered with an
+    /// error): no live entry, still registered in memory and on disk, binding kept
+    ClosedStillRegistered,
+    /// B's key removed, a second key bound, removed, the first key bound again; B stays open
+    RekeyedAfterRevoke,
+    /// B is not created by the script; its `db.create` runs at the end and the `n`-th mutation
+    /// attempt of it fails once (nothing lands), the server unwinds what it can
+    CreateFailedAt(u8),
+    /// as above, but the store becomes unreachable (every call fails) once `n` mutations of the
+    /// `db.create` landed and comes back only after the answer: the unwind fails as well
+    CreateOutageAt(u8),
+    /// B's `db.create` completes, then a second AppState is connected over the crash state that
+    /// holds only the first `n` landed mutations of it
+    CreateCrashedAt(u8),
+}
+
+impl Life {
+    /// Variant name without its parameter (counter keys, signatures).
+    pub fn kind(self) -> String {
+        format!("{self:?}").split('(').next().unwrap_or("").to_string()
+    }
+    /// One of the states added for the lifecycle monitor (`DORMANT_LIVES` + the create cuts).
+    pub fn is_late(self) -> bool {
+        !ALL_LIVES.contains(&self)
+    }
+    /// B is created (or attempted) by `apply_life`, not by the creation script.
+    pub fn creates_b_late(self) -> bool {
+        matches!(self, Life::CreateFailedAt(_) | Life::CreateOutageAt(_) | Life::CreateCrashedAt(_))
+    }
+    /// The state is only reached when B ends up without a live entry.
+    pub fn b_must_be_dormant(self) -> bool {
+        matches!(self, Life::UnopenedAfterFailedReopen | Life::ClosedUnregistered | Life::ClosedStillRegistered)
+    }
+    /// `Some(true)`: B must still be in the persisted registry; `Some(false)`: must not.
+    pub fn b_must_be_registered(self) -> Option<bool> {
+        match self {
+            Life::UnopenedAfterFailedReopen | Life::ClosedStillRegistered | Life::FailedReopenThenOpened => Some(true),
+            Life::ClosedUnregistered => Some(false),
+            _ => None,
+        }
+    }
 }
 
 pub const ALL_LIVES: [Life; 7] = [
@@ -511,6 +564,15 @@ pub const ALL_LIVES: [Life; 7] = [
     Life::Restarted,
     Life::Crashed,
     Life::CrashedPending,
+];
+
+/// The fixed lifecycle states of the `states` monitor (the create cuts are enumerated on top).
+pub const DORMANT_LIVES: [Life; 5] = [
+    Life::UnopenedAfterFailedReopen,
+    Life::FailedReopenThenOpened,
+    Life::ClosedUnregistered,
+    Life::ClosedStillRegistered,
+    Life::RekeyedAfterRevoke,
 ];
 
 #[derive(Clone, Debug)]
@@ -583,6 +645,17 @@ pub struct World {
     /// open, which the server documents as writing: `api/collection.rs::open`)
     pub warm: BTreeSet<(String, String)>,
     pub n_docs: u64,
+    /// control handle of the path-selective fault layer (late lifecycle states only; `rec` sits
+    /// below it, so its log holds exactly what reached the backend)
+    pub faults: Option<FaultHandle>,
+    fault_store: Option<Arc<dyn ObjectStore>>,
+    /// B has a live entry (observed from the database list once the lifecycle state is applied)
+    pub b_open: bool,
+    /// the key B was requested under is accepted for B (observed; only consulted for the
+    /// interrupted-creation states, whose unwind of the binding is documented as best-effort)
+    pub b_bound_observed: bool,
+    /// what happened on the way into the state (evidence)
+    pub life_notes: Vec<String>,
 }
 
 /// Body limit of the worlds (small, so that the over-limit probe is cheap).
@@ -689,14 +762,32 @@ impl World {
     pub async fn build(spec: WorldSpec) -> World {
         let rec = RecStore::new();
         rec.set_record_reads(false);
-        let state = AppState::connect(
-            rec.as_dyn(),
-            server_options(&spec.names.primary, Some(spec.keys.admin.clone())),
-        )
-        .await
-        .expect("AppState::connect");
+        // the late lifecycle states need faults by path and by operation: AppState -> FaultStore
+        // (pass-through unless a rule is pushed) -> RecStore -> InMemory
+        let (store, faults): (Arc<dyn ObjectStore>, Option<FaultHandle>) = if spec.life.is_late() {
+            let (fs, h) = FaultStore::wrap(rec.clone());
+            (Arc::new(fs), Some(h))
+        } else {
+            (rec.as_dyn(), None)
+        };
+        let fault_store = faults.as_ref().map(|_| store.clone());
+        let state = AppState::connect(store, server_options(&spec.names.primary, Some(spec.keys.admin.clone())))
+            .await
+            .expect("AppState::connect");
         let app = build_router(state.clone());
-        let mut w = World { spec, rec, state, app, warm: BTreeSet::new(), n_docs: 5 };
+        let mut w = World {
+            spec,
+            rec,
+            state,
+            app,
+            warm: BTreeSet::new(),
+            n_docs: 5,
+            faults,
+            fault_store,
+            b_open: false,
+            b_bound_observed: false,
+            life_notes: vec![],
+        };
         let (n, k) = (w.spec.names.clone(), w.spec.keys.clone());
         // A: created under a first key which is then rotated away
         w.admin_ok("/", "db.create", json!({"name": n.a, "api_key": k.a_old})).await;
@@ -710,22 +801,15 @@ impl World {
         w.populate(&n.d.clone(), 2).await;
         w.admin_ok("/", "db.close", json!({"name": n.d})).await;
         w.warm.retain(|(db, _)| db != &n.d);
-        // B
-        match w.spec.bmode {
-            BMode::Keyed => {
-                w.admin_ok("/", "db.create", json!({"name": n.b, "api_key": k.b})).await;
-            }
-            BMode::Rekeyed => {
-                w.admin_ok("/", "db.create", json!({"name": n.b, "api_key": k.b_alt})).await;
-            }
-            BMode::Unbound => {
-                w.admin_ok("/", "db.create", json!({"name": n.b})).await;
-            }
-            BMode::Absent => {}
+        // B (the interrupted-creation states create it at the very end, see `apply_life`)
+        let b_in_script = w.spec.bmode != BMode::Absent && !w.spec.life.creates_b_late();
+        if b_in_script {
+            w.admin_ok("/", "db.create", w.b_create_params()).await;
+            w.b_open = true;
         }
         let nd = w.n_docs;
         w.populate(&n.a.clone(), nd).await;
-        if w.spec.bmode != BMode::Absent {
+        if b_in_script {
             w.populate(&n.b.clone(), nd).await;
         }
         w.populate(&n.c.clone(), 2).await;
@@ -734,16 +818,61 @@ impl World {
             w.admin_ok(&format!("/{db}"), "db.flush", json!({})).await;
         }
         w.apply_life().await;
+        w.b_open = w.state.db_names().await.contains(&n.b);
+        w.b_bound_observed = match w.b_requested_key() {
+            Some(key) => w.state.authorize(Scope::Database(&n.b), Some(key.as_str())).is_ok(),
+            None => false,
+        };
         w
     }
 
+    /// The key B is created under in this world.
+    pub fn b_requested_key(&self) -> Option<String> {
+        match self.spec.bmode {
+            BMode::Keyed => Some(self.spec.keys.b.clone()),
+            BMode::Rekeyed => Some(self.spec.keys.b_alt.clone()),
+            _ => None,
+        }
+    }
+
+    fn b_create_params(&self) -> Value {
+        let mut p = json!({"name": self.spec.names.b});
+        if let Some(k) = self.b_requested_key() {
+            p["api_key"] = json!(k);
+        }
+        p
+    }
+
+    /// Databases with a live entry according to the script (B: as observed after `apply_life`).
     pub fn open_dbs(&self) -> Vec<String> {
         let n = &self.spec.names;
         let mut v = vec![n.primary.clone(), n.a.clone(), n.c.clone()];
-        if self.spec.bmode != BMode::Absent {
+        if self.b_open {
             v.push(n.b.clone());
         }
         v
+    }
+
+    /// One admin request whose answer is part of the state under construction (may fail).
+    async fn admin_try(&mut self, path: &str, method: &str, params: Value) -> Resp {
+        let r = send(
+            &self.app,
+            &Req {
+                path: path.to_string(),
+                auth: Some(bearer(&self.spec.keys.admin)),
+                enc: Enc::Cbor,
+                method: method.to_string(),
+                params,
+            },
+        )
+        .await
+        .expect("world script request");
+        self.life_notes.push(format!("{method} -> {} {}", r.status, r.error_code().unwrap_or_default()));
+        r
+    }
+
+    fn fault_handle(&self) -> FaultHandle {
+        self.faults.clone().expect("late lifecycle states run over the fault layer")
     }
 
     async fn apply_life(&mut self) {
@@ -803,13 +932,105 @@ impl World {
                 rec.set_record_reads(false);
                 self.reconnect(rec).await;
             }
+            Life::UnopenedAfterFailedReopen | Life::FailedReopenThenOpened => {
+                self.state.shutdown().await;
+                let h = self.fault_handle();
+                // every read of an object of B fails while the server starts
+                // (`<b>/`: B's objects only, also when A's name extends B's)
+                h.push_rule(FaultRule {
+                    op: FaultOp::Get,
+                    path_contains: Some(format!("{}/", n.b)),
+                    skip: 0,
+                    times: u64::MAX,
+                    kind: FaultKind::Error,
+                });
+                self.reconnect(self.rec.clone()).await;
+                // storage recovers
+                h.reset();
+                if self.spec.life == Life::FailedReopenThenOpened && self.spec.bmode != BMode::Absent {
+                    self.admin_try("/", "db.open", json!({"name": n.b})).await;
+                }
+            }
+            Life::ClosedUnregistered => {
+                self.admin_try("/", "db.close", json!({"name": n.b})).await;
+                self.warm.retain(|(d, _)| d != &n.b);
+            }
+            Life::ClosedStillRegistered => {
+                let h = self.fault_handle();
+                // the registry lives in the primary database's metadata: its writes fail
+                h.push_rule(FaultRule {
+                    op: FaultOp::Put,
+                    path_contains: Some(format!("{}/", n.primary)),
+                    skip: 0,
+                    times: u64::MAX,
+                    kind: FaultKind::Error,
+                });
+                self.admin_try("/", "db.close", json!({"name": n.b})).await;
+                h.reset();
+                self.warm.retain(|(d, _)| d != &n.b);
+            }
+            Life::RekeyedAfterRevoke => {
+                if self.spec.bmode != BMode::Absent {
+                    let k = self.spec.keys.clone();
+                    let own = self.b_requested_key();
+                    // a key that is not the one B ends up with
+                    let interim = if own.as_deref() == Some(k.b_alt.as_str()) { k.b.clone() } else { k.b_alt.clone() };
+                    self.admin_ok("/", "db.remove_api_key", json!({"name": n.b})).await;
+                    self.admin_ok("/", "db.set_api_key", json!({"name": n.b, "api_key": interim})).await;
+                    self.admin_ok("/", "db.remove_api_key", json!({"name": n.b})).await;
+                    if let Some(own) = own {
+                        self.admin_ok("/", "db.set_api_key", json!({"name": n.b, "api_key": own})).await;
+                    }
+                }
+            }
+            Life::CreateFailedAt(cut) | Life::CreateOutageAt(cut) => {
+                if self.spec.bmode != BMode::Absent {
+                    let outage = matches!(self.spec.life, Life::CreateOutageAt(_));
+                    if outage {
+                        self.rec.set_fault(Fault::PowerOffAfter(self.rec.landed() + cut as u64));
+                    } else {
+                        self.rec.set_fault(Fault::FailBefore(self.rec.attempts() + cut as u64));
+                    }
+                    let r = self.admin_try("/", "db.create", self.b_create_params()).await;
+                    drain(8).await;
+                    let fired = self.rec.fault_fired();
+                    self.rec.reset_faults();
+                    self.life_notes.push(format!("fault fired: {fired}, create answered {}", r.status));
+                }
+            }
+            Life::CreateCrashedAt(cut) => {
+                let from = self.rec.mark();
+                if self.spec.bmode != BMode::Absent {
+                    self.admin_try("/", "db.create", self.b_create_params()).await;
+                    drain(8).await;
+                }
+                let landed = self.rec.mark() - from;
+                self.life_notes.push(format!("create landed {landed} mutations, crash state keeps {}", (cut as usize).min(landed)));
+                let copy = self.rec.materialize(from + (cut as usize).min(landed)).await;
+                let rec = RecStore::over(copy);
+                rec.set_record_reads(false);
+                self.reconnect(rec).await;
+            }
         }
     }
 
     /// New `AppState` + router over `rec` (a restart of the process).
     pub async fn reconnect(&mut self, rec: RecStore) {
+        // a world that runs over the fault layer keeps it: the same wrapper (and handle) over the
+        // same store, a fresh one over a crash copy
+        let store: Arc<dyn ObjectStore> = match &self.fault_store {
+            Some(fs) if Arc::ptr_eq(&rec.0, &self.rec.0) => fs.clone(),
+            Some(_) => {
+                let (fs, h) = FaultStore::wrap(rec.clone());
+                let fs: Arc<dyn ObjectStore> = Arc::new(fs);
+                self.faults = Some(h);
+                self.fault_store = Some(fs.clone());
+                fs
+            }
+            None => rec.as_dyn(),
+        };
         let state = AppState::connect(
-            rec.as_dyn(),
+            store,
             server_options(&self.spec.names.primary, Some(self.spec.keys.admin.clone())),
         )
         .await
@@ -828,6 +1049,11 @@ impl World {
         } else if db == n.d {
             Some(&k.d)
         } else if db == n.b {
+            // an interrupted creation unwinds the binding "best-effort" (state.rs,
+            // undo_api_key_binding): whether it survived is observed, not prescribed
+            if self.spec.life.creates_b_late() && !self.b_bound_observed {
+                return None;
+            }
             match self.spec.bmode {
                 BMode::Keyed => Some(&k.b),
                 BMode::Rekeyed => Some(&k.b_alt),
@@ -917,6 +1143,30 @@ impl World {
 
     pub async fn shutdown(self) {
         self.state.shutdown().await;
+    }
+
+    /// Would a server started now over the current backend content reopen `db`? (= `db` is in the
+    /// persisted registry and its objects are readable.) Runs a throw-away AppState over a copy.
+    pub async fn reopened_by_a_restart(&self, db: &str) -> Result<bool, String> {
+        let copy = RecStore::over(self.rec.snapshot().await);
+        copy.set_record_reads(false);
+        let state = AppState::connect(
+            copy.as_dyn(),
+            server_options(&self.spec.names.primary, Some(self.spec.keys.admin.clone())),
+        )
+        .await
+        .map_err(|e| format!("AppState::connect over a copy: {}", e.message))?;
+        let has = state.db_names().await.iter().any(|n| n == db);
+        state.shutdown().await;
+        Ok(has)
+    }
+
+    /// Is `db` known to the running server (open or registered)? Observed through the admin's
+    /// `db.set_api_key`, which answers 404 for an unknown name - it MUTATES the bindings, so only
+    /// for a world that is thrown away afterwards.
+    pub async fn known_to_server_destructive(&mut self, db: &str) -> bool {
+        let r = self.admin_try("/", "db.set_api_key", json!({"name": db, "api_key": "kz-end-of-case-probe"})).await;
+        r.status == 200
     }
 }
 
